@@ -27,6 +27,10 @@ def corpus():
         # KEEP_LAST 1, two instances: GAPs for evicted samples on the best-effort path, reordered
         parse_line(PRE % (128, 0, 0, 1) + " ; w 0 1 4 1 ; w 0 2 4 2 ; w 0 2 4 3 ; R 0 1 rel=0 dur=0 ; netm ; q ; "
                    "dl 2 ; dl 0 ; dl 0 ; w 0 1 4 4 ; w 0 2 4 5 ; q ; dl 1 ; dl 0 ; t 0 0 ; adv 250000000 ; pu ; t 0 0 ; q"),
+        # regression for C04-besteffort-hole-skips-sample (repaired by d974049): KEEP_LAST 1, keys 1,2,2 -> held {1,3};
+        # a late BEST_EFFORT TRANSIENT_LOCAL reader is sent DATA(1), GAP(2) AND DATA(3)
+        parse_line(PRE % (1344, 0, 1, 1) + " ; w 0 1 10 11 ; w 0 2 10 22 ; w 0 2 10 33 ; R 0 1 rel=0 dur=1 ; netm ; q ; pu ; "
+                   "t 0 0 ; w 0 1 10 44 ; q ; pu ; t 0 0 ; q"),
     ]
 
 
